@@ -29,7 +29,7 @@ import clip as K
 
 TOL_LAT = Fr(1, 2 ** 40)
 TOL_CURVED = Fr(1, 2 ** 34)
-BITS = 64
+BITS = 80          # lattice of the exact oracle: degree-6 edges cut 11 times need 6*11 + 6 bits
 S = {}          # run-time state: modules of the package tree under test
 
 
@@ -502,6 +502,44 @@ def tangent_corner_on_curved_edge(rnd):
             return [[x + sh[0] for x in xs], [y + sh[1] for y in ys]]
         return mv(t1), mv(t2)
     raise RuntimeError("no tangent-corner configuration generated")
+
+
+def wavy_multi_region(rnd):
+    """a triangle of degree n = 4..6 whose first edge is the graph of  amp * T_n(x / w) + delta  (T_n Chebyshev) over [-w, w]
+    - it dips below y = 0 several times - with apex (0, h), against a straight triangle whose top edge runs along y = 0: the
+    common region consists of SEVERAL disjoint lenses (2 or 3).  Control values are rounded to multiples of 1/64 (exact in binary64
+    and on the oracle's lattice); argument order random."""
+    from math import comb
+    for _ in range(200):
+        got = _wavy_try(rnd, comb)
+        if got is not None and jacobian_bernstein_positive(got[0], got[1]):
+            return got
+    raise RuntimeError("no valid wavy triangle generated")
+
+
+def _wavy_try(rnd, comb):
+    n = rnd.choice([4, 6, 6])
+    w, h = Fr(rnd.choice([2, 3, 4])), Fr(rnd.choice([6, 8, 12, 16]))
+    amp, delta = Fr(rnd.choice([2, 3, 4, 5]), 16), Fr(rnd.choice([1, 2]), 16)
+    if amp <= delta:
+        return None
+    cheb = [Fr((-1) ** (n - j) * comb(2 * n, 2 * j), comb(n, j)) for j in range(n + 1)]
+    bottom = [amp * c + delta for c in cheb]
+    A, B, Cc = (-w, Fr(0)), (w, Fr(0)), (Fr(0), h)
+    xs, ys = [], []
+    for k in range(n + 1):
+        for j in range(n + 1 - k):
+            i = n - j - k
+            x = (i * A[0] + j * B[0] + k * Cc[0]) / n
+            y = (i * A[1] + j * B[1] + k * Cc[1]) / n
+            if k == 0:
+                y += bottom[j]
+            xs.append(Fr(round(x * 64), 64))          # coarse dyadic grid: the exact oracle works on a 2^-64 lattice
+            ys.append(Fr(round(y * 64), 64))
+    wavy = [xs, ys]
+    ww = w + rnd.randint(1, 2)
+    straight = [[-ww, Fr(0), ww], [Fr(0), -Fr(rnd.randint(3, 5)), Fr(0)]]
+    return wavy, n, straight
 
 
 def internal_tangency(rnd):
@@ -1200,6 +1238,12 @@ def main():
                 n1, d1, n2, d2 = tang[1], 2, tang[0], 3
                 if rnd.random() < 0.5:
                     n1, d1, n2, d2 = n2, d2, n1, d1
+        elif k % 10 == 7:
+            # several disjoint regions (the region-end workspace of the compiled code grows on the first such call of a process)
+            wv, dn, st3 = wavy_multi_region(rnd)
+            n1, d1, n2, d2 = wv, dn, st3, 1
+            if rnd.random() < 0.5:
+                n1, d1, n2, d2 = n2, d2, n1, d1
         elif k % 10 == 2:
             # a corner of a straight triangle ON a curved edge of the other, one of its edges tangent to the curve there
             t1q, t2s = tangent_corner_on_curved_edge(rnd)
